@@ -16,13 +16,18 @@ def run():
         o, f, ob = veclemmas.obligations(S, N=N, LOOP=LOOP)
         oob.update(ob)
         o2, f2 = crudlemmas.obligations(S)
-        return o + [x for x in o2 if "C18" in x.props], f + f2
+        o3, f3, seen = crudlemmas.get_obligations(S, DEPTH=(4 if thorough else 3))
+        ev.cov["crud_get_paths"] = seen
+        return o + [x for x in o2 + o3 if "C18" in x.props], f + f2 + f3
 
     def replayer(o, model):
+        if ":crud::get:" in o.role:
+            return crudlemmas.get_replayer(o, model)
         return crudlemmas.replayer(o, model) if ":crud::remove:" in o.role else veclemmas.replayer(o, model)
     ev.cov["bounds"] = [f"one array level: length 0..{N} (enumerated), elements opaque; index: symbolic isize over its FULL range",
                         f"padding loops: at most {LOOP} iterations per path; indices needing more padding end in 'outside the bound' paths (counted below), not in a verdict",
-                        "one level of the recursive crud::remove driver (generic collection, oracles for the collection's operations and the recursive call): nothing-found changes nothing, pruning exactly when asked and the child became empty; crud::{get,insert} recursion and the BTreeMap side of ValueCollection are NOT encoded"]
+                        "one level of the recursive crud::remove driver (generic collection, oracles for the collection's operations and the recursive call): nothing-found changes nothing, pruning exactly when asked and the child became empty",
+                        f"crud::get: loop head visited {4 if thorough else 3} times (walks of up to {3 if thorough else 2} successful look-ups) (deeper walks end 'outside the bound'; every iteration is the same code from an arbitrary value reached, so the per-segment statement is an induction step), look-ups and the path iterator are oracles: each segment is looked up in the value reached so far, an exhausted path returns that value, a segment is skipped only on a non-container or a container of the other kind; crud::insert recursion and the BTreeMap side of ValueCollection are NOT encoded"]
     ev.cov["trusted_base"] = ["rustc nightly -Zunpretty=mir output", "MIR semantics in lib/mirse/symex.py",
                               "Vec/slice models in lib/mirse/veclemmas.py (len, push, insert, remove, index_mut, get, mem::replace)", "z3"]
     ev.cov["checker_cmd"] = "python3-vt /verif/lib/check.py C18"
